@@ -197,6 +197,16 @@ class WriteTool(BaseTool):
         # 3. Comments (// to end of line)
         protected: list[tuple[int, int]] = []
 
+        # YAML frontmatter (Zone 2) is not OCTAVE text: it is preserved byte-for-byte (Issue #91),
+        # so template braces in it (name: foo{bar}) must be neither rewritten nor receipted.
+        _, frontmatter = _strip_yaml_frontmatter(content)
+        body_start = 0
+        if frontmatter is not None:
+            content_lines = content.split("\n")
+            closing = next(i for i in range(1, len(content_lines)) if content_lines[i].strip() == "---")
+            body_start = sum(len(ln) + 1 for ln in content_lines[: closing + 1])
+            protected.append((0, body_start))
+
         # Find literal zone boundaries (``` fences)
         # Same rule as the lexer: a zone opened with N backticks is closed only by a line of
         # exactly N backticks; shorter backtick runs inside it are content.
@@ -207,6 +217,8 @@ class WriteTool(BaseTool):
         for line in content.split("\n"):
             line_start = offset
             offset += len(line) + 1  # +1 for the newline separator
+            if line_start < body_start:
+                continue
             stripped = line.strip()
             if stripped.startswith("```"):
                 if not in_fence:
